@@ -295,6 +295,14 @@ example : wfAnns [(str "attributes", .dict [(str "k", some []), (str "j", some (
     serializeAnnotations [(str "attributes", .dict [(str "k", some []), (str "j", some (str "v"))])] =
       str "(attributes k= j=v)" := by decide +kernel
 
+/-- values may contain `=` (and `:` `/` `?` `.` `,`, non-ASCII): only the first `=` of `key=value` separates -/
+example : wfAnns [(str "attributes", .dict [(str "doc.url", some (str "http://x/?id=3")), (str "expr", some (str "a==b")),
+                                          (str "é", some (str "=中,x:y"))]),
+                  (str "array", .dict [(str "length", some (str "n=len"))])] = true ∧
+    parseAnnotations true 0 (str "(attributes doc.url=http://x/?id=3 expr=a==b) (array length=n=len)") none =
+      .ok [(str "attributes", .dict [(str "doc.url", some (str "http://x/?id=3")), (str "expr", some (str "a==b"))]),
+           (str "array", .dict [(str "length", some (str "n=len"))])] [] true 46 66 [] := by decide +kernel
+
 /-- a block model of the fragment, a layout (tab indentation, CRLF) and the text it renders to -/
 def exampleBlock : SBlock :=
   { name := str "ACTION_foo_bar", anns := [(str "skip", .list [])],
